@@ -40,7 +40,7 @@ func init() {
 		Level:     "exploration",
 		Technique: "behavioural schema check on a fake Postgres with real identifier, type and NULL-distinct unique-index semantics: generated integration sets are validated, migrated and indexed; the first pass must insert everything, a second insert of the same blocks (positions removed through SQL) must fail with 23505; the printed schema (config.DDL) is applied to a second server and must hold every written column; columns are removed from otherwise valid configurations and validation must reject them",
 		Rule: "case kinds by index: single integration (log/tx/trace, arrays giving several rows per log, several matching logs and traces per transaction, one or two sources, default / user-named identity fields / identity columns declared in table.columns without a block entry (each identity column × each shape) / user-supplied unique key, extra columns, notifications); 2–3 integrations sharing a table with different shapes and orders (and a same-shape control); column removal / ghost notification column; tables existing before boot with fewer columns (created by SQL, or by an earlier, smaller configuration of the same integration); reserved-word column names and (one case in four of that kind) mixed-case names. " +
-			"signature = (kind, modes, identity variant, array rows, outcome classes); trivial = no row written in the first pass.",
+			"signature = (kind, modes, identity variant, array rows, outcome classes); trivial = no row written in the first pass. Half of the chains end trace_block with reward traces; a quarter of the existing-table scenarios use a table name longer than 63 bytes.",
 		Assumptions: []string{
 			"fakepg implements PostgreSQL identifier folding/quoting, type names, ADD COLUMN IF NOT EXISTS and unique indexes with NULLs distinct; CREATE INDEX IF NOT EXISTS with an existing name is skipped BEFORE its column list is checked (real PostgreSQL checks the columns first and would fail the migration where a key column does not exist yet: the more permissive reading is simulated)",
 			"every row an integration emits comes from a different (block, transaction, log, array element / trace) item, so any 23505 in a first pass over an empty database is a collision between two different rows",
